@@ -223,3 +223,46 @@ def isMatch (pat subj : Bytes) : Option Bool :=
 
 end Regex
 end Miller
+
+namespace Miller
+namespace Regex
+
+/-- Case-insensitive variant of an expression (`(?i)`), ASCII letters. -/
+def otherCase (c : Nat) : Option Nat :=
+  if 65 ≤ c ∧ c ≤ 90 then some (c + 32) else if 97 ≤ c ∧ c ≤ 122 then some (c - 32) else none
+
+def foldRanges (rs : List (Nat × Nat)) : List (Nat × Nat) :=
+  rs ++ rs.flatMap fun (a, b) =>
+    -- intersect with the letter ranges and shift
+    let up := if max a 65 ≤ min b 90 then [(max a 65 + 32, min b 90 + 32)] else []
+    let lo := if max a 97 ≤ min b 122 then [(max a 97 - 32, min b 122 - 32)] else []
+    up ++ lo
+
+def foldCase : Re → Re
+  | .byte c => (match otherCase c with | some d => .cls false [(c, c), (d, d)] | none => .byte c)
+  | .cls neg rs => .cls neg (foldRanges rs)
+  | .seq a b => .seq (foldCase a) (foldCase b)
+  | .alt a b => .alt (foldCase a) (foldCase b)
+  | .rep r mn mx g f => .rep (foldCase r) mn mx g f
+  | .group i r => .group i (foldCase r)
+  | r => r
+
+/-- `lib.CompileMillerRegex`: strip enclosing `"…"` or `/…/`; a trailing `i` after the closing
+delimiter makes it case-insensitive. -/
+def compileMiller (s : Bytes) : Option (Re × Nat × Bytes) :=
+  let n := s.length
+  let inner (k : Nat) : Bytes := (s.drop 1).take (n - 1 - k)
+  let plain (p : Bytes) : Option (Re × Nat × Bytes) := (parse p).map fun (r, g) => (r, g, p)
+  let ci (p : Bytes) : Option (Re × Nat × Bytes) := (parse p).map fun (r, g) => (foldCase r, g, p)
+  if n < 2 then plain s
+  else if s.head? == some 34 && s.getLast? == some 34 then plain (inner 1)
+  else if s.head? == some 47 && s.getLast? == some 47 then plain (inner 1)
+  else if s.head? == some 34 && s.drop (n - 2) == [34, 105] then ci (inner 2)
+  else if s.head? == some 47 && s.drop (n - 2) == [47, 105] then ci (inner 2)
+  else plain s
+
+/-- `regex.MatchString(subject)` for a compiled Miller regex. -/
+def matchCompiled (c : Re × Nat × Bytes) (subj : Bytes) : Bool := (search c.1 subj c.2.2 0).isSome
+
+end Regex
+end Miller
